@@ -51,6 +51,20 @@ theorem tie_model_es_priority (buf : Bytes) :
     Af.esPriority buf = (do let f ← Af.flags buf; pure (mEsPriority (envL [f]))) := rfl
 theorem tie_model_flags (buf : Bytes) : Af.flags buf = byteAt buf 0 := rfl
 
+/-! ### the flag-dependent offset chains (control flow translated from the source: `if`, calls) -/
+
+/-- `opcr_offset`, `splice_countdown_offset`, `transport_private_data_offset` as functions of the
+flags byte -/
+theorem tie_expr_af_offsets : ∀ x : Fin 256,
+    af_opcr_offset (envL [x.val]) = Af.opcrOffset x.val
+    ∧ af_splice_offset (envL [x.val]) = Af.spliceOffset x.val
+    ∧ af_private_offset (envL [x.val]) = Af.privOffset x.val := by decide +kernel
+
+/-- `piecewise_rate_offset`, `seamless_splice_offset` as functions of the extension's flags byte -/
+theorem tie_expr_ext_offsets : ∀ x : Fin 256,
+    ext_piecewise_offset (envL [x.val]) = Af.piecewiseOffset x.val
+    ∧ ext_seamless_offset (envL [x.val]) = Af.seamlessOffset x.val := by decide +kernel
+
 /-! ### extension fields -/
 
 def mLtwValid (e : Env) : Bool := e 0 &&& 0b1000_0000 != 0
